@@ -76,13 +76,13 @@ func (s *sessionMetadatasState) Create(id string, clientID string, connectedAt i
 		Peer:        s.peer,
 		LastAdded:   clock(),
 	}
-	err := s.set(session)
-	if err != nil {
-		return err
-	}
 	buf, err := proto.Marshal(&api.StateBroadcastEvent{
 		SessionMetadatas: []*api.SessionMetadatas{&session},
 	})
+	if err != nil {
+		return err
+	}
+	err = s.set(session)
 	if err != nil {
 		return err
 	}
